@@ -35,6 +35,7 @@ func main() {
 	flag.IntVar(&o.QueryMs, "qms", 600000, "per-query timeout (ms)")
 	flag.IntVar(&o.MaxModels, "models", 3, "distinct violation models to extract")
 	flag.IntVar(&o.Covers, "covers", 0, "cover witnesses to extract")
+	flag.BoolVar(&o.Witness, "witness", false, "extract one arbitrary execution inside the bounds (for native validation)")
 	flag.IntVar(&o.MaxTerms, "maxterms", 4000000, "unroller cap (terms)")
 	flag.StringVar(&o.Dir, "dir", ".", "module directory")
 	known := flag.String("known", "", "known sites, ';'-separated: kind/id @pos-suffix")
